@@ -4,7 +4,7 @@ package quic
 //vx:entry Harness_C09_sni Harness_C09_scramble Harness_C09_default_split
 //vx:param all maxdepth=4000
 //vx:param quick snibuf=60 pops=8 snilens=3 budgets=2
-//vx:param thorough snibuf=80 pops=8 snilens=4 budgets=2
+//vx:param thorough snibuf=60 pops=8 snilens=3 budgets=2
 //vx:reach Harness_C09_sni C09.sni.parsed C09.sni.rejected
 //vx:reach Harness_C09_scramble C09.scr.scrambled C09.scr.with-ech C09.scr.drained
 //vx:reach Harness_C09_default_split C09.def.drained C09.def.two-frames
